@@ -24,16 +24,41 @@ def abstract_of(draw):
     return [realopt.abstract_group(opt, gi, g) for gi, g in enumerate(draw["groups"])]
 
 
-def pool_map(fn, tasks, fresh=False):
-    """fresh=True: every task in a newly forked process (simulated-rank worlds must not inherit anything from a previous world)."""
+_FS_READY = False
+
+
+def _forkserver():
+    """Fresh-process pools are served by a fork SERVER: a single-threaded process with torch and the harness preloaded, so a
+    new worker never is a fork of this (multi-threaded) process - forking from the pool's handler threads deadlocked a worker
+    pool once in ~130 runs (all workers waiting on an inherited lock)."""
+    global _FS_READY
+    ctx = mp.get_context("forkserver")
+    if not _FS_READY:
+        ctx.set_forkserver_preload(["torch", "harness.realopt", "harness.simdist", "harness.drivers.dist_common", "harness.replay"])
+        _FS_READY = True
+    return ctx
+
+
+def pool_map(fn, tasks, fresh=False, timeout=3000):
+    """fresh=True: every task in a new process (simulated-rank worlds must not inherit anything from a previous world)."""
     if not tasks:
         return []
-    ctx = mp.get_context("fork")
     if fresh:
-        with ctx.Pool(min(POOL, len(tasks)), maxtasksperchild=1) as pool:
-            return pool.map(fn, tasks, chunksize=1)
+        ctx = _forkserver()
+        pool = ctx.Pool(min(POOL, len(tasks)), maxtasksperchild=1)
+        try:
+            return pool.map_async(fn, tasks, chunksize=1).get(timeout=timeout)
+        except mp.TimeoutError:
+            raise tlc.TLCMachineryError(f"worker pool did not finish {len(tasks)} tasks of {fn.__name__} within {timeout}s")
+        finally:
+            pool.terminate()
+            pool.join()
+    ctx = mp.get_context("fork")
     with ctx.Pool(min(POOL, len(tasks))) as pool:
-        return pool.map(fn, tasks, chunksize=max(1, len(tasks) // (POOL * 4)))
+        try:
+            return pool.map_async(fn, tasks, chunksize=max(1, len(tasks) // (POOL * 4))).get(timeout=timeout)
+        except mp.TimeoutError:
+            raise tlc.TLCMachineryError(f"worker pool did not finish {len(tasks)} tasks of {fn.__name__} within {timeout}s")
 
 
 def sim_map(fn, tasks, is_bad):
